@@ -28,6 +28,10 @@ SPEC = {
         {"name": "tickets-concurrent-race", "pkg": SS, "kind": "rapid", "run": "^TestVerifC18TicketsConcurrent$",
          "quick": {"checks": 40, "shards": 1, "timeout": 300, "race": True, "shrinktime": "5s"},
          "thorough": {"checks": 400, "shards": 4, "timeout": 900, "race": True, "shrinktime": "20s"}},
+        # many bridge addresses (1..64) holding tickets at once, restarts after the file has grown
+        {"name": "tickets-many", "pkg": SS, "kind": "rapid", "run": "^TestVerifC18TicketsManyAddresses$",
+         "quick": {"checks": 120, "shards": 1, "timeout": 300, "shrinktime": "5s"},
+         "thorough": {"checks": 1500, "shards": 6, "timeout": 900, "shrinktime": "20s"}},
         {"name": "crash-tickets", "pkg": SS, "kind": "rapid", "run": "^TestVerifC18CrashTickets$",
          "quick": {"checks": 8, "shards": 1, "timeout": 300, "shrinktime": "4s"},
          "thorough": {"checks": 30, "shards": 8, "timeout": 1200, "shrinktime": "30s"}},
